@@ -146,6 +146,27 @@ func init() {
 					})
 				}
 				c.Check(ok && n == 1, "wrapper-delegates:"+suf, c.P.Pos(wr.Pos()), "calls reassemblyQueue.forwardTSNFor"+suf+" with its own argument", "wrapper calls a different purge or passes something else")
+				// the reader is woken on what the purge made readable: isReadable() is evaluated after the purge
+				isR := c.Fn("reassemblyQueue.isReadable")
+				nR, okAfter := 0, true
+				for _, fn := range c.P.Funcs {
+					if enclosingNamed(fn) != wr && !c.P.OwnedBy(fn, map[*ssa.Function]bool{wr: true}) {
+						continue
+					}
+					for _, rc := range callsIn(fn, isR) {
+						nR++
+						after := false
+						for _, pc := range callsIn(fn, target) {
+							if InstrDominates(pc, rc) {
+								after = true
+							}
+						}
+						if !after {
+							okAfter = false
+						}
+					}
+				}
+				c.Check(nR >= 1 && okAfter, "wake-after-purge:"+suf, c.P.Pos(wr.Pos()), "readability is tested after the purge (the reader is signalled for what the skip released)", "readability is tested before the purge: a message that becomes deliverable because of the skip does not wake a blocked reader")
 			}
 		}})
 }
